@@ -92,7 +92,7 @@ class Run:
         try:
             with open(path, "w") as fh:
                 json.dump({"property": self.prop, "key": key, "what": what, "seed": self.seed,
-                           "tier": self.tier, "case": case}, fh, indent=1, default=_default)
+                           "tier": self.tier, "case": _strkeys(case)}, fh, indent=1, default=_default)
         except Exception as e:  # never lose the verdict because of a replay file
             print("warning: could not write replay file: %s" % e, file=sys.stderr)
         self.violations[key] = (what, path, 1)
@@ -117,7 +117,7 @@ class Run:
         if self.inconclusive:
             cov["inconclusive"] = self.inconclusive
         if not self.violations and not self.inconclusive and \
-                (evaluations < 1 or distinct_nontrivial < 2):
+                (evaluations < 1 or (distinct_nontrivial < 2 and not self.replay_of)):
             self.inconc("the run observed nothing (evaluations=%d distinct=%d)" %
                         (evaluations, distinct_nontrivial))
             cov["inconclusive"] = self.inconclusive
@@ -160,12 +160,23 @@ def _default(o):
     return repr(o)
 
 
+def _strkeys(o):
+    """dictionaries keyed by bytes (environment maps) get string keys 'hexkey:<hex>' (JSON keys are strings)"""
+    if isinstance(o, dict):
+        return {("hexkey:" + bytes(k).hex() if isinstance(k, (bytes, bytearray)) else k): _strkeys(v)
+                for k, v in o.items()}
+    if isinstance(o, (list, tuple)):
+        return [_strkeys(v) for v in o]
+    return o
+
+
 def unhex_json(o):
-    """inverse of _default for bytes"""
+    """inverse of _default / _strkeys for bytes"""
     if isinstance(o, dict):
         if set(o.keys()) == {"hex"}:
             return bytes.fromhex(o["hex"])
-        return {k: unhex_json(v) for k, v in o.items()}
+        return {(bytes.fromhex(k[7:]) if isinstance(k, str) and k.startswith("hexkey:") else k): unhex_json(v)
+                for k, v in o.items()}
     if isinstance(o, list):
         return [unhex_json(v) for v in o]
     return o
